@@ -499,7 +499,7 @@ func c07Targets() []func() interface{} {
 }
 
 // c07GenTargets: a field F of every carrier type (T, *T, **T, interface{} holding T, interface{}
-// holding *T) over every kind of held value (lists, arrays, maps, struct, primitive), nil or
+// holding *T, []*T, map[string]*T, [1]*T, []**T, map[string]**T) over every kind of held value (lists, arrays, maps, struct, primitive), nil or
 // pre-filled, as a named field that the configurations set, as an inlined field and as a named
 // field they do not set.
 func c07GenTargets() []func() interface{} {
@@ -516,7 +516,7 @@ func c07GenTargets() []func() interface{} {
 	tags := []string{`config:"a"`, `config:",inline"`, `config:"zz"`}
 	var out []func() interface{}
 	for hi := range held {
-		for carrier := 0; carrier < 5; carrier++ {
+		for carrier := 0; carrier < 10; carrier++ {
 			for filled := 0; filled < 2; filled++ {
 				for _, tag := range tags {
 					hi, carrier, filled, tag := hi, carrier, filled, tag
@@ -528,6 +528,7 @@ func c07GenTargets() []func() interface{} {
 							p.Elem().Set(v)
 							return p
 						}
+						tString := reflect.TypeOf("")
 						var ft reflect.Type
 						switch carrier {
 						case 0:
@@ -536,8 +537,18 @@ func c07GenTargets() []func() interface{} {
 							ft = reflect.PtrTo(T)
 						case 2:
 							ft = reflect.PtrTo(reflect.PtrTo(T))
-						default:
+						case 3, 4:
 							ft = reflect.TypeOf((*interface{})(nil)).Elem()
+						case 5: // collections of pointers
+							ft = reflect.SliceOf(reflect.PtrTo(T))
+						case 6:
+							ft = reflect.MapOf(tString, reflect.PtrTo(T))
+						case 7:
+							ft = reflect.ArrayOf(1, reflect.PtrTo(T))
+						case 8:
+							ft = reflect.SliceOf(reflect.PtrTo(reflect.PtrTo(T)))
+						case 9:
+							ft = reflect.MapOf(tString, reflect.PtrTo(reflect.PtrTo(T)))
 						}
 						st := reflect.New(reflect.StructOf([]reflect.StructField{{Name: "F", Type: ft, Tag: reflect.StructTag(tag)}}))
 						if filled == 1 {
@@ -549,6 +560,25 @@ func c07GenTargets() []func() interface{} {
 								f.Set(ptrTo(hv))
 							case 2:
 								f.Set(ptrTo(ptrTo(hv)))
+							case 5, 8:
+								e := ptrTo(hv)
+								if carrier == 8 {
+									e = ptrTo(e)
+								}
+								s := reflect.MakeSlice(ft, 1, 1)
+								s.Index(0).Set(e)
+								f.Set(s)
+							case 6, 9:
+								e := ptrTo(hv)
+								if carrier == 9 {
+									e = ptrTo(e)
+								}
+								m := reflect.MakeMap(ft)
+								m.SetMapIndex(reflect.ValueOf("b"), e)
+								m.SetMapIndex(reflect.ValueOf("0"), e)
+								f.Set(m)
+							case 7:
+								f.Index(0).Set(ptrTo(hv))
 							}
 						}
 						return st.Interface()
